@@ -51,6 +51,7 @@ type builder struct {
 	flags  int
 	pfx    string // "w:" / "ns0:" / "" (default namespace)
 	tag    int
+	ctx    string // suffix of text tags generated right now
 	texts  []string
 	parts  map[string][]byte
 	order  []string
@@ -93,9 +94,17 @@ func (b *builder) put(name string, data string) {
 func (b *builder) text() string {
 	b.tag++
 	words := []string{"Lorem", "ipsum", "dolor", " sit ", "amet", "Ünïcode", "中文", "a&b", "x<y", "  two  spaces"}
-	s := fmt.Sprintf("%s⟪%d⟫", words[b.r.Intn(len(words))], b.tag)
+	s := fmt.Sprintf("%s⟪%d%s⟫", words[b.r.Intn(len(words))], b.tag, b.ctx)
 	b.texts = append(b.texts, s)
 	return s
+}
+
+// in generates runs whose text tags name the element they are nested in
+// (":hyperlink", ":ins", ...), so that an oracle can say where a lost text was.
+func (b *builder) in(ctx string, f func() string) string {
+	b.ctx = ":" + ctx
+	defer func() { b.ctx = "" }()
+	return f()
 }
 
 func esc(s string) string {
@@ -274,13 +283,16 @@ func Build(seed uint64, flags int) *Result {
 	}
 	if flags&FHyperlink != 0 {
 		hid := b.addRel(nsR+"/hyperlink", "https://example.com/a?b=1&c=2", "External")
-		para(b.run("")+fmt.Sprintf("<%s r:id=\"%s\">%s%s</%s>", b.w("hyperlink"), hid, b.run(""), b.run(b.rpr()), b.w("hyperlink"))+b.run(""), "")
+		first := b.run("")
+		link := b.in("hyperlink", func() string { return b.run("") + b.run(b.rpr()) })
+		para(first+fmt.Sprintf("<%s r:id=\"%s\">%s</%s>", b.w("hyperlink"), hid, link, b.w("hyperlink"))+b.run(""), "")
 	}
 	if flags&FNestedRuns != 0 {
-		para(fmt.Sprintf("<%s %s=\"urn:x\" %s=\"place\">%s</%s>", b.w("smartTag"), b.wa("uri"), b.wa("element"), b.run(""), b.w("smartTag"))+
-			fmt.Sprintf("<%s %s=\"1\" %s=\"me\">%s</%s>", b.w("ins"), b.wa("id"), b.wa("author"), b.run(""), b.w("ins"))+
-			fmt.Sprintf("<%s><%s/><%s>%s</%s></%s>", b.w("sdt"), b.w("sdtPr"), b.w("sdtContent"), b.run(""), b.w("sdtContent"), b.w("sdt"))+
-			fmt.Sprintf("<%s %s=\" PAGE \">%s</%s>", b.w("fldSimple"), b.wa("instr"), b.run(""), b.w("fldSimple")), "")
+		one := func(ctx string) string { return b.in(ctx, func() string { return b.run("") }) }
+		para(fmt.Sprintf("<%s %s=\"urn:x\" %s=\"place\">%s</%s>", b.w("smartTag"), b.wa("uri"), b.wa("element"), one("smartTag"), b.w("smartTag"))+
+			fmt.Sprintf("<%s %s=\"1\" %s=\"me\">%s</%s>", b.w("ins"), b.wa("id"), b.wa("author"), one("ins"), b.w("ins"))+
+			fmt.Sprintf("<%s><%s/><%s>%s</%s></%s>", b.w("sdt"), b.w("sdtPr"), b.w("sdtContent"), one("sdt"), b.w("sdtContent"), b.w("sdt"))+
+			fmt.Sprintf("<%s %s=\" PAGE \">%s</%s>", b.w("fldSimple"), b.wa("instr"), one("fldSimple"), b.w("fldSimple")), "")
 	}
 	if flags&FTables != 0 {
 		fmt.Fprintf(&body, "<%s><%s><%s %s=\"ForeignGrid\"/><%s %s=\"0\" %s=\"auto\"/></%s><%s><%s %s=\"2000\"/><%s %s=\"3000\"/></%s>", b.w("tbl"), b.w("tblPr"), b.w("tblStyle"), b.wa("val"), b.w("tblW"), b.wa("w"), b.wa("type"), b.w("tblPr"), b.w("tblGrid"), b.w("gridCol"), b.wa("w"), b.w("gridCol"), b.wa("w"), b.w("tblGrid"))
